@@ -42,7 +42,7 @@ def gen(r, tier, i):
     flowless0 = r.random() < 0.2
     return {'cell_ts': r.choice([0.5, 1.0, 1.5, 0.75]), 'dir_as': 'process' if flowless0 else r.choice(['process', 'process', 'step']),
             'initial_flowless': flowless0, 'script': script, 'base': r.choice([[], [], ['env']]),
-            'deriver': r.choice([None, 'steps', 'processes']), 'viewers': r.random() < 0.3, 'poke': r.random() < 0.4, 'nested_cells': r.random() < 0.4, 'gen_legacy': r.random() < 0.3, 'dir_key': r.choice(['dir', 'dir', '0dir']), 'cell_rev': r.random() < 0.5, 'dir_subtopo': r.random() < 0.25,
+            'deriver': r.choice([None, 'steps', 'processes']), 'viewers': r.random() < 0.3, 'poke': r.random() < 0.4, 'nested_cells': r.random() < 0.4, 'gen_legacy': r.random() < 0.3, 'dir_key': r.choice(['dir', 'dir', '0dir']), 'cell_rev': r.random() < 0.5, 'dir_subtopo': r.random() < 0.25, 'dir_first': r.random() < 0.4,
             'viewer_ts': 0.5, 'run': run_len, 'extra': 3.0}
 
 
@@ -198,11 +198,19 @@ def run(spec):
                 base = ledger_base.setdefault((path, led[0] if led else None), len(log))
                 last = {}
                 bad_tok = None
+                gap_tok = None
                 for tok in log[base:]:
                     if isinstance(tok, (list, tuple)) and len(tok) >= 2:
                         if tok[1] <= last.get(tok[0], 0):
                             bad_tok = tok
+                        elif tok[0] in last and tok[1] != last[tok[0]] + 1:
+                            gap_tok = (tok, last[tok[0]])
                         last[tok[0]] = tok[1]
+                # ... and none is lost: the updates of one process instance that reach the ledger are consecutive
+                V.check('ledger_in_order', gap_tok is None,
+                        lambda: ('row at t=%r, cell %s: the ledger holds update %r right after update %r of the same process - the '
+                                 'updates in between were computed and never applied' % (t, key, gap_tok[0], gap_tok[1]),
+                                 [tuple(x[:2]) for x in st.get('log', [])][-8:]))
                 V.check('ledger_in_order', bad_tok is None,
                         lambda: ('row at t=%r, cell %s: the ledger holds update %r after a later one of the same process' % (t, key, bad_tok),
                                  [tuple(x[:2]) for x in st.get('log', [])][-8:]))
